@@ -8,6 +8,7 @@ import Fx.OutputOk
 import Fx.Lemmas.Emit
 import Fx.Render
 import Fx.Props.C13
+import Fx.Lemmas.Fits
 namespace Fx.C07
 open Fx
 
@@ -138,5 +139,37 @@ theorem C07_union_param_declared_iff_used (items : List Item) (a : Ast) (ha : As
   cases u.default with
   | none => simp [hv]
   | some d => simp [hv]
+
+
+/-- **C07 (the three emitters agree), for every supported specification.**  The decoder emitter, the type emitter and the
+    generic index are three pieces of code that must agree for the module to type-check.  For every specification in the
+    supported subset whose parameter lists are those of the generic index (`paramsOk`: what `C13_typedef_param_consistent`
+    proves of every `Ast` the front end builds), whose integer labels fit the discriminant's type (`labelsTyped`) and whose
+    labels give distinct variant names (`variantsDistinct`) — three decidable side conditions `Supported` leaves to rustc,
+    evaluated by the driver on every campaign specification — every emitted decoder *fits* the emitted declaration of the
+    same name: the same parameter list; struct fields in order, each decode expression of exactly the declared field type
+    (`T`, `String`, `name`, `name<T>`, `[_; N]` with the resolved length, `Vec<_>`, `Option<Box<_>>`); every union arm's
+    pattern well-typed against the discriminant's Rust type (integer literal in range, `true`/`false`, `c if c == E::V as ty`
+    with the right cast) and its payload of its variant's type, the `default(..)` tail included; every enum arm a declared
+    member with an in-range discriminant; the newtype's inner type.  `implFits` is the type part of the judgement `outputOk`
+    that stands in for rustc (whose agreement with rustc is measured on every compiled batch). -/
+theorem C07_decoders_fit_declarations (a : Ast) (m : Module) (hs : Supported a = true) (hp : paramsOk a = true)
+    (hl : labelsTyped a = true) (hv : variantsDistinct a = true) (hg : generateModule a = .ok m) :
+    m.fromRefMut.all (implFits a m) = true ∧ m.fromBytes.all (implFits a m) = true := by
+  have h := decoders_fit hs hp hl hv hg
+  have hfam : m.fromBytes = m.fromRefMut := C07_families_identical a m hg
+  exact ⟨h, by rw [hfam]; exact h⟩
+
+/-- non-vacuity: `const A = 3; enum e { M = 1 }; struct s { opaque o<A>; unsigned int n; }; typedef unsigned int t;
+    union u switch (e d) { case M: s x; }` satisfies all four hypotheses -/
+def exAst : Ast :=
+  { constants := [("A", .constValue "3"), ("M", .enumValue "e" "M")],
+    generics := ["s", "u"],
+    types := [("e", .enum ⟨"e", [⟨"M", .numeric 1⟩]⟩),
+              ("s", .struct ⟨"s", [⟨"o", .variable .opaque (some (.constant "A")), false⟩, ⟨"n", .none .u32, false⟩]⟩),
+              ("t", .typedef ⟨.u32, .none (.ident "t")⟩),
+              ("u", .union ⟨"u", [⟨["M"], "x", .none (.ident "s")⟩], none, [], ⟨"d", .ident "e"⟩⟩)] }
+
+example : Supported exAst = true ∧ paramsOk exAst = true ∧ labelsTyped exAst = true ∧ variantsDistinct exAst = true := by decide
 
 end Fx.C07
